@@ -1056,6 +1056,58 @@ class C03(core.PropertyCheck):
             return f"diagnostic| well-formed document reported {impl['diags'][:2]}"
         return None
 
+    # ---- qualified and unqualified spellings ----
+    def extra_checks(self, tier, rng):
+        """A directive or role of a domain can be written `name` (when the project's default_domain is that domain) or `domain:name`
+        (anywhere). Both spellings are the same construct: same node kind, name, domain, argument / target, body, same problems
+        reported. Every directive, role and rstobject the spec declares under a domain is parsed both ways."""
+        from snooty import util
+        from snooty.types import ProjectConfig
+        spec = specparser.Spec.get()
+        by_domain = {}
+        for cat in ("directive", "role", "rstobject"):
+            for key in getattr(spec, cat):
+                d, nm = util.split_domain(key)
+                if d:
+                    by_domain.setdefault(d, []).append((cat, nm))
+
+        def strip(x):
+            if isinstance(x, dict):
+                return {k: strip(v) for k, v in x.items() if k != "position"}
+            if isinstance(x, list):
+                return [strip(v) for v in x]
+            return x
+
+        def ser(text, dd):
+            page, diags = rstimpl.parse(text, "test.txt", ProjectConfig(rstimpl.ROOT, "verif", default_domain=dd))
+            return strip(page.ast.serialize()), sorted(type(x).__name__ for x in diags)
+
+        viol, n_ = [], 0
+        for d in sorted(by_domain):
+            for cat, nm in sorted(by_domain[d]):
+                forms = []
+                if cat in ("role", "rstobject"):
+                    forms.append(("Text :{q}:`foo` end.\n", "role"))
+                if cat in ("directive", "rstobject"):
+                    forms.append((".. {q}:: foo\n\n   body\n", "directive"))
+                for form, what in forms:
+                    n_ += 1
+                    try:
+                        a = ser(form.format(q=nm), d)
+                        b = ser(form.format(q=f"{d}:{nm}"), None)
+                    except Exception as e:
+                        viol.append({"case": {"kind": "spelling", "domain": d, "name": nm, "what": what},
+                                     "desc": f"spelling: parsing the {what} {d}:{nm} raised {type(e).__name__}: {e}"[:300], "key": "spelling:raised"})
+                        return viol, {"qualified_vs_unqualified_spellings": n_}
+                    if a != b:
+                        viol.append({"case": {"kind": "spelling", "domain": d, "name": nm, "what": what, "text": form.format(q=nm)},
+                                     "impl": {"unqualified_under_default_domain": a, "qualified": b},
+                                     "desc": (f"spelling: the {what} `{nm}` under default_domain = {d!r} and the same {what} written `{d}:{nm}` are emitted "
+                                              f"differently: {json.dumps(a, ensure_ascii=False)[:260]} vs {json.dumps(b, ensure_ascii=False)[:260]}"),
+                                     "key": "spelling"})
+                        return viol, {"qualified_vs_unqualified_spellings": n_}
+        return viol, {"qualified_vs_unqualified_spellings": n_}
+
     def finding_key(self, case, impl, desc):
         if "|" in desc:
             return desc.split("|")[0]
